@@ -11,7 +11,7 @@ import threading
 import time
 import types
 from dataclasses import dataclass
-from typing import List, Optional
+from typing import List, Optional, Union
 
 from adaptix import ProviderNotFoundError, Retort
 from adaptix._internal.code_tools import compiler as _compiler
@@ -283,7 +283,64 @@ def h9():
             {"retort": r, "post": lambda: [repr(r.load(NODE_DATA, Node)), failing(), repr(r.dump(NODE_OBJ, Node))]})
 
 
-HARNESSES = {"H1": h1, "H2": h2, "H3": h3, "H4": h4, "H5": h5, "H6": h6, "H7": h7, "H8": h8, "H9": h9}
+class Blob:
+    """loadable only below Holder.root.next (a loader bound to that location)"""
+
+    def __init__(self, *args):
+        (self.text,) = args
+
+    def __repr__(self):
+        return f"Blob({self.text!r})"
+
+
+def _load_blob(data):
+    return Blob(str(data))
+
+
+@dataclass
+class Link:
+    value: int
+    next: Union["Link", Blob, None] = None
+
+
+@dataclass
+class Holder:
+    root: Link
+
+
+HOLDER_DATA = {"root": {"value": 1, "next": {"value": 2, "next": {"value": 3, "next": "x"}}}}
+
+
+def h10():
+    """a request for a RECURSIVE model that fails after closures holding its recursion stub were cached (Link on its own: Blob
+    has no loader there), next to a successful first use of an overlapping type (Holder, below which Blob is loadable): the
+    clean-up after the failure must not be observable by the other thread"""
+    from adaptix import P, loader
+
+    def world():
+        _fresh_world()
+        return Retort(recipe=[loader(P[Holder].root.next[Blob], _load_blob)])
+
+    def failing(r):
+        try:
+            r.get_loader(Link)
+            return "created"
+        except ProviderNotFoundError:
+            return "refused"
+
+    assert failing(world()) == "refused", "the H10 harness must contain a failing request for the recursive model"
+    r = world()
+    got = {}
+
+    def t2():
+        got["loader"] = r.get_loader(Holder)
+        return repr(got["loader"](HOLDER_DATA))
+
+    return ([lambda: failing(r), t2],
+            {"retort": r, "post": lambda: [repr(got["loader"](HOLDER_DATA)), repr(r.load(HOLDER_DATA, Holder)), failing(r)]})
+
+
+HARNESSES = {"H10": h10, "H1": h1, "H2": h2, "H3": h3, "H4": h4, "H5": h5, "H6": h6, "H7": h7, "H8": h8, "H9": h9}
 
 _EXPECTED = {}
 
@@ -389,9 +446,9 @@ def explore_shard(args):
 
 PLAN = {
     "quick": [("H1", "R1", 2), ("H4", "R1", 2), ("H2", "R1", 1), ("H3", "R1", 1), ("H5", "R1", 1), ("H6", "R1", 1),
-              ("H7", "R1", 1), ("H8", "R1", 1), ("H9", "R1", 1), ("H1", "R2", 0), ("H2", "R2", 0)],
+              ("H7", "R1", 1), ("H8", "R1", 1), ("H9", "R1", 1), ("H10", "R1", 1), ("H1", "R2", 0), ("H2", "R2", 0)],
     "thorough": [("H1", "R1", 3), ("H4", "R1", 3), ("H2", "R1", 2), ("H3", "R1", 2), ("H5", "R1", 2), ("H6", "R1", 2),
-                 ("H7", "R1", 2), ("H8", "R1", 2), ("H9", "R1", 2),
+                 ("H7", "R1", 2), ("H8", "R1", 2), ("H9", "R1", 2), ("H10", "R1", 2), ("H10", "R2", 1),
                  ("H1", "R2", 1), ("H2", "R2", 1), ("H3", "R2", 1), ("H4", "R2", 1), ("H5", "R2", 1), ("H6", "R2", 1),
                  ("H7", "R2", 1), ("H8", "R2", 1), ("H9", "R2", 1)],
 }
